@@ -600,5 +600,33 @@ def r17_11(ctx):
         raise AnalysisError("steps of _recursively_perform_action not found")
 
 
+def r17_12(ctx):
+    """R17.12 a menu lists its own rows: when the entries of a choice that is defined in several places are merged, shown_nodes() may drop
+    a row only because the same option was already listed - never a row of the definition that is being shown (`choice_node is
+    menu`). The rows of the current menu are what enter/leave/select index into; a row that belongs to another definition has
+    another parent and another position."""
+    from .common import _bool_leaves, facts_vs_formula, parse_key
+    repo = ctx.repo
+    f = repo.func(f"{MODEL}:MenuConfigState.shown_nodes")
+    ctx.analysed(f.qual)
+    fl = Flow(f.node, resolver=Resolver(f.node)).run()
+    apps = [n for n in ast.walk(f.node) if isinstance(n, ast.Call) and ast.unparse(n.func) == "res.append" and repo.enclosing_func(n) is f]
+    apps = [n for n in apps if any("Choice" in k and p for k, p in (fl.guards_at(n) or set()))]
+    if not apps:
+        raise AnchorError("shown_nodes: the merge of a multiply defined choice was not found")
+    for i, a in enumerate(apps):
+        construct = f"MenuConfigState.shown_nodes/rows of the shown definition are never dropped by the duplicate filter (#{i + 1})"
+        gs = fl.guards_at(a) or set()
+        rel = {(k, p) for k, p in gs if "seen" in k}
+        leaves = set()
+        for k, _ in rel:
+            _bool_leaves(parse_key(k), leaves)
+        own = [x for x in leaves if x.endswith(" is menu")]
+        formula = own[0] if own else "OWN_DEFINITION_"
+        _, not_implied = facts_vs_formula(rel, formula)
+        (ctx.bad(construct, f"a row is listed only under {sorted(not_implied)}, also when it belongs to the definition being shown: the menu then shows another "
+                 "definition's node for that option", f.loc(a)) if not_implied else ctx.ok(construct, f.loc(a)))
+
+
 def rules():
-    return [("R17.11", r17_11, 3), ("R17.10", r17_10, 3), ("R17.9", r17_9, 2), ("R17.8", r17_8, 6), ("R17.7", r17_7, 5), ("R17.1", r17_1, 6), ("R17.5", r17_5, 4), ("R17.2", r17_2, 13), ("R17.3", r17_3, 4), ("R17.4", r17_4, 6), ("R17.6", r17_6, 3)]
+    return [("R17.12", r17_12, 1), ("R17.11", r17_11, 3), ("R17.10", r17_10, 3), ("R17.9", r17_9, 2), ("R17.8", r17_8, 6), ("R17.7", r17_7, 5), ("R17.1", r17_1, 6), ("R17.5", r17_5, 4), ("R17.2", r17_2, 13), ("R17.3", r17_3, 4), ("R17.4", r17_4, 6), ("R17.6", r17_6, 3)]
